@@ -1,5 +1,6 @@
 /-
-C02 at token level (Props/C02.lean) and at text level (Props/C03Text.lean: C02_text_sound, C02_text_complete, C02_text_accepts_iff).
+C02 at token level (Props/C02.lean) and at text level (Props/C03Text.lean: C02_text_sound, C02_text_complete, C02_text_accepts_iff); the minor clauses in Props/C02Clauses.lean.
 -/
 import Verif.Props.C02
 import Verif.Props.C03Text
+import Verif.Props.C02Clauses
